@@ -24,6 +24,7 @@ package rtcp
 
 //@ func (h *Header) Unmarshal(rawPacket []byte) (err error)
 //@   safety[C01]
+//@   allocates[C01] 0
 //@   modifies *h
 //@   nocap
 //@   ensures[C01,C04,C07,C16] ok: (err == nil) <==> (len(rawPacket) >= 4 && rawPacket[0]>>6 == 2)
@@ -42,6 +43,7 @@ package rtcp
 
 //@ func (r *ReceptionReport) Unmarshal(rawPacket []byte) (err error)
 //@   safety[C01]
+//@   allocates[C01] 0
 //@   modifies *r
 //@   nocap
 //@   ensures[C01,C04,C16] ok: (err == nil) <==> len(rawPacket) >= 24
@@ -70,6 +72,7 @@ package rtcp
 //@     invariant 0 <= i && i <= int(h.Count) && i == len(r.Reports) && offset == 24+24*i && offset <= len(packetBody)
 //@     invariant unchanged(r.SSRC) && unchanged(r.NTPTime) && unchanged(r.RTPTime) && unchanged(r.PacketCount) && unchanged(r.OctetCount) && unchanged(r.ProfileExtensions)
 //@     invariant[C04] forall k :: 0 <= k && k < len(r.Reports) ==> r.Reports[k] == specRRDecode(rawPacket, 28+24*k)
+//@     invariant[C01] allocated() <= 64 + 28*len(r.Reports)
 //@     decreases int(h.Count) - i
 
 //@ func (r *SenderReport) MarshalSize() (result int)
@@ -184,6 +187,7 @@ package rtcp
 //@     invariant i == 8+24*len(r.Reports) && len(r.Reports) <= int(h.Count) && (len(r.Reports) == 0 || i <= len(rawPacket))
 //@     invariant unchanged(r.SSRC) && unchanged(r.ProfileExtensions)
 //@     invariant[C04] forall k :: 0 <= k && k < len(r.Reports) ==> r.Reports[k] == specRRDecode(rawPacket, 8+24*k)
+//@     invariant[C01] allocated() <= 64 + 28*len(r.Reports)
 //@     decreases int(h.Count) - len(r.Reports)
 
 //@ func (r *ReceiverReport) DestinationSSRC() (result []uint32)
